@@ -107,3 +107,34 @@ Lemma wit_dev_as_found_survives :
   ds_panicked (dev_run dflags_as_found wit_dev_msgs) = false /\
   length (ds_published (dev_run dflags_as_found wit_dev_msgs)) = 2%nat.
 Proof. vm_compute. split; reflexivity. Qed.
+
+(* ------------------------------------------------------------------ probe() *)
+Definition safe_pflags (fl : pflags) : Prop :=
+  by_pointer fl = false \/ (config_nil_checked fl = true /\ caps_nil_checked fl = true).
+
+Lemma probe_never_panics : forall fl se config caps,
+  safe_pflags fl -> probe_after fl se config caps <> PoPanic.
+Proof.
+  intros fl se config caps Hs. unfold probe_after. destruct se; [|discriminate].
+  destruct Hs as [Hp|[Hc Hk]].
+  - rewrite Hp. cbn [andb]. destruct caps as [b|]; destruct config as [[|]|]; discriminate.
+  - rewrite Hc, Hk. cbn [negb]. rewrite !andb_false_r.
+    destruct caps as [b|]; destruct config as [[|]|]; discriminate.
+Qed.
+
+(* a device is discovered only from an Identification that was received *)
+Lemma probe_info_needs_config : forall fl se config caps k,
+  probe_after fl se config caps = PoInfo k -> se = SeClosedByUs /\ config = Some true.
+Proof.
+  intros fl se config caps k. unfold probe_after. destruct se; [|discriminate].
+  destruct caps as [b|]; [|destruct (by_pointer fl && negb (caps_nil_checked fl))]; try discriminate;
+    destruct config as [[|]|]; try discriminate; try (intros _; split; reflexivity);
+    destruct (by_pointer fl && negb (config_nil_checked fl)); discriminate.
+Qed.
+
+(* witness: replies by pointer, the capabilities pointer tested, the configuration pointer not:
+   GetReaderConfig fails, the session still ends in an orderly close *)
+Lemma wit_probe_panics :
+  probe_after (mkPFlags true false true) SeClosedByUs None None = PoPanic /\
+  probe_after pflags_as_found SeClosedByUs None None = PoErr.
+Proof. split; reflexivity. Qed.
